@@ -189,6 +189,22 @@ theorem takeWhile_run (b : Nat) (s rest : List Char) (hd : ∀ c ∈ s, isDigit 
     rw [List.takeWhile_cons_of_neg (by simpa using hc), List.dropWhile_cons_of_neg (by simpa using hc)]
     simp
 
+/-- the digit run of `%d` / `%x` (no underscore) -/
+theorem takeWhile_digitsB (b : Nat) (s rest : List Char) (hd : ∀ c ∈ s, isDigit b c = true)
+    (hr : RestOK b rest) :
+    (s ++ rest).takeWhile (isDigit b) = s ∧ (s ++ rest).dropWhile (isDigit b) = rest := by
+  rw [List.takeWhile_append_of_pos hd, List.dropWhile_append_of_pos hd]
+  rcases hr with h | ⟨c, r, h, hc⟩
+  · subst h
+    simp
+  · subst h
+    have hc' : isDigit b c = false := by
+      cases hx : isDigit b c with
+      | false => rfl
+      | true => simp [hx] at hc
+    rw [List.takeWhile_cons_of_neg (by simp [hc']), List.dropWhile_cons_of_neg (by simp [hc'])]
+    simp
+
 theorem contains_us_false (b : Nat) (hb : b ≤ 16) (s : List Char) (hd : ∀ c ∈ s, isDigit b c = true) :
     s.contains '_' = false := by
   cases h : s.contains '_' with
@@ -208,9 +224,8 @@ theorem scanBase_pos (b bits : Nat) (hb : b ≤ 16) (s rest : List Char) (hs : s
     (hf : (fits 64 (valOf b s : Int) && fits bits (valOf b s : Int)) = true) :
     scanBase b bits (s ++ rest) = some ((valOf b s : Int), rest) := by
   unfold scanBase
-  simp only [splitSign_digits b hb s rest hs hd, (takeWhile_run b s rest hd hr).1,
-    (takeWhile_run b s rest hd hr).2, isEmpty_false_of_ne_nil s hs, contains_us_false b hb s hd,
-    signed]
+  simp only [splitSign_digits b hb s rest hs hd, (takeWhile_digitsB b s rest hd hr).1,
+    (takeWhile_digitsB b s rest hd hr).2, isEmpty_false_of_ne_nil s hs, signed]
   simp [hf]
 
 /-- generic negative scan -/
@@ -219,9 +234,8 @@ theorem scanBase_neg (b bits : Nat) (hb : b ≤ 16) (s rest : List Char) (hs : s
     (hf : (fits 64 (-(valOf b s : Int)) && fits bits (-(valOf b s : Int))) = true) :
     scanBase b bits ('-' :: (s ++ rest)) = some (-(valOf b s : Int), rest) := by
   unfold scanBase
-  simp only [splitSign_neg, (takeWhile_run b s rest hd hr).1,
-    (takeWhile_run b s rest hd hr).2, isEmpty_false_of_ne_nil s hs, contains_us_false b hb s hd,
-    signed]
+  simp only [splitSign_neg, (takeWhile_digitsB b s rest hd hr).1,
+    (takeWhile_digitsB b s rest hd hr).2, isEmpty_false_of_ne_nil s hs, signed]
   simp [hf]
 
 theorem fits32_iff (i : Int) : fits 32 i = true ↔ (-2147483648 ≤ i ∧ i < 2147483648) := by
@@ -305,18 +319,57 @@ theorem scanTok_pad_hex64 (w n : Nat) (h : n < 9223372036854775808) :
   rw [List.append_nil] at this
   simp [scanTok, this, hv]
 
+/-- a run without `_` passes `strconv.underscoreOK` -/
+theorem usOK_digits (s : List Char) (h : s.contains '_' = false) (p : Nat) (hp : p ≠ 2 ∨ s ≠ []) :
+    usOK p s = true := by
+  induction s generalizing p with
+  | nil =>
+    rcases hp with hp | hp
+    · simp [usOK, hp]
+    · exact absurd rfl hp
+  | cons c r ih =>
+    have hc : c ≠ '_' := by
+      intro e; subst e; simp at h
+    have hr : r.contains '_' = false := by
+      cases hx : r.contains '_' with
+      | false => rfl
+      | true =>
+        have : '_' ∈ r := by simpa using hx
+        have : (c :: r).contains '_' = true := by simp [this]
+        rw [this] at h; cases h
+    unfold usOK
+    rw [if_neg hc]
+    exact ih hr 1 (Or.inl (by decide))
+
+theorem filter_no_us (s : List Char) (h : s.contains '_' = false) : s.filter (fun c => c != '_') = s := by
+  apply List.filter_eq_self.2
+  intro c hc
+  have : c ≠ '_' := by
+    intro e; subst e
+    have : s.contains '_' = true := by simpa using hc
+    rw [this] at h; cases h
+  simpa using this
+
 /-- `%v` reads back a `0x…` address -/
 theorem scanV_hex (n : Nat) (h : n < 9223372036854775808) :
     scanV ('0' :: 'x' :: showNat 16 n) = n := by
   have hne := showNat_ne_nil 16 n
   have hd := showNat_isDigit 16 n (by omega) (by omega)
   have hv := valOf_showNat 16 n (by omega) (by omega)
-  have htw := (takeWhile_run 16 _ [] hd (RestOK_nil 16)).1
+  have htw := takeWhile_run 16 _ [] hd (RestOK_nil 16)
   rw [List.append_nil] at htw
   have hf : fits 64 (n : Int) = true := (fits64_iff _).2 (by omega)
+  have hus := contains_us_false 16 (by omega) _ hd
+  have hsk : skipSp ('0' :: 'x' :: showNat 16 n) = '0' :: 'x' :: showNat 16 n := by
+    unfold skipSp
+    rw [List.dropWhile_cons_of_neg (by decide)]
   have hs : splitSign ('0' :: 'x' :: showNat 16 n) = (false, '0' :: 'x' :: showNat 16 n) := rfl
-  unfold scanV
-  simp only [hs, htw, isEmpty_false_of_ne_nil _ hne, contains_us_false 16 (by omega) _ hd, signed, hv]
+  have hm : scanVMag ('0' :: 'x' :: showNat 16 n) = some (n, []) := by
+    unfold scanVMag vGo
+    simp only [htw.1, htw.2, isEmpty_false_of_ne_nil _ hne, filter_no_us _ hus, hv]
+    simp [usOK_digits _ hus 1 (Or.inl (by decide))]
+  unfold scanV scanVI
+  simp only [hsk, hs, hm, signed]
   simp [hf]
 
 theorem all_isDigit (b : Nat) (s : List Char) (hd : ∀ c ∈ s, isDigit b c = true) :
